@@ -568,7 +568,8 @@ Proof.
   pose proof (proj2 (to_offline_sat _ _ _ _ Ho)) as Kp.
   exists t. split; [exact G|].
   destruct Hw as [(_ & _ & ->)|(_ & -> & _)].
-  - split; [apply no_write_nil|]. split; [intros k v []|]. auto.
+  - split; [apply no_write_one, close_not_write|].
+    split; [intros k v [X|[]]; discriminate|]. auto.
   - split; [apply no_write_one, close_not_write|].
     split; [intros k v [X|[]]; discriminate|]. auto.
 Qed.
